@@ -388,3 +388,11 @@ Fixpoint param_registers (preg : ty -> Z -> option Z) (ps : list (option N * ty)
           end
       end
   end.
+
+Fixpoint nodupb (l : list Z) : bool :=
+  match l with [] => true | x :: t => negb (memZ x t) && nodupb t end.
+
+(* side conditions on a configuration: no register is in two pools or twice in one; distinct
+   parameters live in distinct registers *)
+Definition cfg_ok (c : cfg) : Prop :=
+  NoDup (general c TInt ++ general c TFloat ++ general c TString) /\ NoDup (param_regs c).
